@@ -12,6 +12,9 @@
 //   mdirect <part> A f                 amgcl::mpi::direct::skyline_lu on the distributed matrix (master/slave consolidation)
 //   mnonsquare <rp> <cp>               mpi::amg on a matrix with glob_rows != glob_cols: communicator::check must make
 //                                      every rank throw (regression test for /repo 853da24 under ASan)
+//   mtransfer esr epsidx relax <part> A   amgcl::mpi::coarsening::smoothed_aggregation::transfer_operators alone on the distributed matrix
+//                                      (estimate_spectral_radius esr, eps_strong = EPS_TAB[epsidx], relax dyadic); the oracles are the
+//                                      smoothed-aggregation oracles below on the gathered P
 // Oracles (the result line only summarises; the verdicts are the oracles):
 //   * (iters, resid) bitwise identical on all ranks                                                   [property]
 //   * true residual of the gathered solution, recomputed on rank 0 in long double, within 1e-8 of the reported one   [test]
@@ -20,12 +23,22 @@
 //     (exactly when all entries involved are small dyadic numbers, else to 1e-12 relative), R == P^T exactly
 //   * aggregation: P_tent is a global partition (every row has at most one entry, equal to 1; no empty aggregate;
 //     a row without entry has no strong off-diagonal neighbour on ANY rank)
+//   * smoothed aggregation (every level of msolve combos 1/3/4, and mtransfer), on the gathered A, P and the P_tent of an
+//     independent PMIS run at the same threshold:
+//       - near-null space: a row of A with zero row sum whose strong neighbours are all aggregated has row sum 1 in P
+//         (the constant vector is interpolated exactly, wherever the rank boundaries fall: weak connections, local OR
+//         remote, are lumped into the filtered diagonal)                                              [property]
+//       - rows sums of P == row sums of the SERIAL amgcl::coarsening::smoothed_aggregation P on the assembled matrix
+//         (P*1 = (I - w Df^-1 Af) t does not depend on the aggregates, only on which unknowns are aggregated at all)
+//       - P == (I - w Df^-1 Af) P_tent entry by entry, recomputed densely in long double from the documented formula
 //   * direct coarse solver: A x = f to 1e-10 on whichever ranks hold rows, nothing written elsewhere
 #include "mpi_common.hpp"
 #include <amgcl/mpi/make_solver.hpp>
 #include <amgcl/mpi/amg.hpp>
 #include <amgcl/mpi/coarsening/aggregation.hpp>
 #include <amgcl/mpi/coarsening/smoothed_aggregation.hpp>
+#include <amgcl/mpi/coarsening/pmis.hpp>
+#include <amgcl/coarsening/smoothed_aggregation.hpp>
 #include <amgcl/mpi/relaxation/spai0.hpp>
 #include <amgcl/mpi/relaxation/damped_jacobi.hpp>
 #include <amgcl/mpi/relaxation/gauss_seidel.hpp>
@@ -64,15 +77,26 @@ static LD gather_dense(const DM &M, bool &dy) {
 }
 
 // ---------------------------------------------------------------- recording coarsening wrapper
-struct LevelRec { LD A, P, R, Ac; bool dyadic; };
+struct LevelRec { LD A, P, R, Ac, T; bool dyadic; double eps; std::vector<ptrdiff_t> rdom; };
 static std::vector<LevelRec> g_rec;          // filled on rank 0
+// what transfer_operators of the current level saw: the strength threshold BEFORE the call (smoothed_aggregation
+// halves prm.aggr.eps_strong after every level) and the tentative prolongation of an independent PMIS run on the
+// same matrix at that threshold (PMIS draws no random numbers: the run inside Base::transfer_operators is the same)
+static struct { bool have; double eps; LD T; } g_pend = { false, 0.0, LD() };
 template <class Base> struct rec : Base {
     typedef typename Base::params params;
     rec(const params &p = params()) : Base(p) {}
+    std::tuple<std::shared_ptr<DM>, std::shared_ptr<DM>> transfer_operators(const DM &A) {
+        g_pend.have = true; g_pend.eps = this->prm.aggr.eps_strong;
+        { auto ap = this->prm.aggr; amgcl::mpi::coarsening::pmis<BD> ag(A, ap); bool dy = true; g_pend.T = gather_dense(*ag.p_tent, dy); }
+        return Base::transfer_operators(A);
+    }
     std::shared_ptr<DM> coarse_operator(const DM &A, const DM &P, const DM &R) const {
         auto Ac = Base::coarse_operator(A, P, R);
         LevelRec l; l.dyadic = true;
         l.A = gather_dense(A, l.dyadic); l.P = gather_dense(P, l.dyadic); l.R = gather_dense(R, l.dyadic); l.Ac = gather_dense(*Ac, l.dyadic);
+        l.rdom = A.comm().exclusive_sum((ptrdiff_t)A.loc_rows());
+        l.eps = g_pend.have ? g_pend.eps : -1.0; l.T.swap(g_pend.T); g_pend.have = false;
         if (A.comm().rank == 0) g_rec.push_back(l);
         return Ac;
     }
@@ -124,6 +148,97 @@ static LD mul(const LD &A, const LD &B) {
     return C;
 }
 
+// ---------------------------------------------------------------- smoothed-aggregation oracles (rank 0, gathered data)
+// A: assembled level matrix, P: gathered distributed prolongation, T: gathered tentative prolongation of an independent
+// PMIS run, rdom: row distribution of A (for the diagnostics only).  The documented operator (amgcl/coarsening/
+// smoothed_aggregation.hpp) is P = (I - w Df^-1 Af) P_tent with Af the FILTERED matrix: strong off-diagonal entries
+// (eps^2 a_ii a_jj < a_ij^2) kept, every weak off-diagonal entry lumped into the diagonal Df.
+struct SACfg { double eps, relax; bool esr; };
+static const double EPS_TAB[] = { 0.08, 0.04, 0.16, 0.25 };
+static std::string fmt(long double v) { char b[64]; snprintf(b, sizeof b, "%.17Lg", v); return b; }
+static int owner_of(const std::vector<ptrdiff_t> &rdom, size_t i) { int q = 0; while (q + 2 < (int)rdom.size() && (ptrdiff_t)i >= rdom[q + 1]) ++q; return q; }
+static void check_sa(Result &r, const std::string &where, const LD &A, const LD &P, const LD &T, const std::vector<ptrdiff_t> &rdom, const SACfg &cfg) {
+    const size_t n = A.size(), nc = n && P.size() == n ? P[0].size() : 0;
+    if (P.size() != n) { r.fail(where + "P has " + std::to_string(P.size()) + " rows, A has " + std::to_string(n)); return; }
+    if (!n || !nc) { r.tag("sa_no_aggregates"); return; }
+    for (size_t i = 0; i < n; ++i) if (A[i].size() != n) { r.fail(where + "level matrix is not square"); return; }
+    // strength of connection, evaluated in double exactly as documented: eps^2 * a_ii * a_jj < a_ij^2
+    auto strong_at = [&](size_t i, size_t j, double e2) { double v = (double)A[i][j]; return i != j && v != 0 && (e2 * (double)A[i][i]) * (double)A[j][j] < v * v; };
+    const double e2 = cfg.eps * cfg.eps; const float ef = (float)cfg.eps; const double e2f = ef * ef;     // the serial code squares a float
+    auto strong = [&](size_t i, size_t j) { return strong_at(i, j, e2); };
+    long double omega = cfg.relax;
+    if (cfg.esr) { long double rho = 0; for (size_t i = 0; i < n; ++i) { long double sum = 0; for (size_t j = 0; j < n; ++j) sum += std::fabs(A[i][j]); rho = std::max(rho, sum * std::fabs(1.0L / A[i][i])); } omega *= (4.0L / 3) / rho; }
+    else omega *= (long double)(2.0 / 3);
+    std::vector<long double> dia(n), t(n, 0.0L), rsA(n, 0.0L), rsP(n, 0.0L), absA(n, 0.0L); std::vector<int> nstrong(n, 0), weak_rem(n, -1);
+    bool haveT = T.size() == n && T[0].size() == nc, Tpart = haveT, bad_dia = false, weak_remote = false; long zrs = 0;
+    for (size_t i = 0; haveT && i < n; ++i) { int cnt = 0; for (size_t c = 0; c < nc; ++c) if (T[i][c] != 0) { ++cnt; t[i] += T[i][c]; if (T[i][c] != 1) Tpart = false; } if (cnt > 1) Tpart = false; }
+    for (size_t i = 0; i < n; ++i) {
+        dia[i] = A[i][i];
+        for (size_t j = 0; j < n; ++j) {
+            rsA[i] += A[i][j]; absA[i] += std::fabs(A[i][j]);
+            if (j == i || A[i][j] == 0) continue;
+            if (strong(i, j)) ++nstrong[i]; else { dia[i] += A[i][j]; if (owner_of(rdom, i) != owner_of(rdom, j)) { weak_remote = true; if (weak_rem[i] < 0) weak_rem[i] = (int)j; } }
+        }
+        for (size_t c = 0; c < nc; ++c) rsP[i] += P[i][c];
+        if (nstrong[i] && dia[i] == 0) bad_dia = true;
+    }
+    if (weak_remote) r.tag("sa_weak_remote");
+    if (bad_dia) { r.tag("sa_zero_filtered_diagonal"); return; }           // outside the SPD M-matrix domain: 1/0 in the distributed code
+    if (!haveT || !Tpart) { r.tag("sa_pmis_rerun_unusable"); }
+    // (1) near-null space: zero row sum in A, aggregated, all strong neighbours aggregated => row sum 1 in P
+    if (haveT && Tpart) for (size_t i = 0; i < n; ++i) {
+        if (!nstrong[i] || t[i] != 1 || std::fabs(rsA[i]) > 1e-14L * absA[i]) continue;
+        bool all = true; for (size_t j = 0; j < n; ++j) if (j != i && A[i][j] != 0 && strong(i, j) && t[j] != 1) all = false;
+        if (!all) continue;
+        ++zrs;
+        if (std::fabs(rsP[i] - 1.0L) > 1e-11L) {
+            std::string m = where + "near-null space not reproduced: row " + std::to_string(i) + " of A (owned by rank " + std::to_string(owner_of(rdom, i)) + ") has zero row sum and " + std::to_string(nstrong[i]) + " strong neighbour(s), but row " + std::to_string(i) + " of the distributed prolongation sums to " + fmt(rsP[i]) + " instead of 1";
+            if (weak_rem[i] >= 0) m += "; the row has a WEAK connection a(" + std::to_string(i) + "," + std::to_string(weak_rem[i]) + ") = " + fmt(A[i][weak_rem[i]]) + " to an unknown owned by rank " + std::to_string(owner_of(rdom, weak_rem[i])) + " that must be lumped into the filtered diagonal";
+            r.fail(m); return;
+        }
+    }
+    if (zrs) r.tag("sa_nullspace_rows");
+    // (2) the serial coarsening on the assembled matrix: P*1 is independent of the aggregates
+    {
+        bool same_class = true; for (size_t i = 0; i < n; ++i) for (size_t j = 0; j < n; ++j) if (strong_at(i, j, e2) != strong_at(i, j, e2f)) same_class = false;
+        if (!same_class) r.tag("sa_serial_borderline");
+        else {
+            std::vector<ptrdiff_t> ptr(1, 0), col; std::vector<double> val;
+            for (size_t i = 0; i < n; ++i) { for (size_t j = 0; j < n; ++j) if (A[i][j] != 0 || j == i) { col.push_back((ptrdiff_t)j); val.push_back((double)A[i][j]); } ptr.push_back((ptrdiff_t)col.size()); }
+            DCrs As(std::make_tuple(n, ptr, col, val));
+            typedef amgcl::coarsening::smoothed_aggregation<BD> SerialSA;
+            SerialSA::params sp; sp.aggr.eps_strong = ef; sp.relax = (float)cfg.relax; sp.estimate_spectral_radius = cfg.esr; sp.power_iters = 0;
+            std::shared_ptr<DCrs> Ps, Rs; bool empty = false;
+            try { SerialSA C(sp); std::tie(Ps, Rs) = C.transfer_operators(As); } catch (const amgcl::error::empty_level &) { empty = true; }
+            if (empty) r.fail(where + "serial smoothed_aggregation finds no aggregate on the assembled matrix, the distributed one finds " + std::to_string(nc));
+            else {
+                r.tag("sa_serial");
+                for (size_t i = 0; i < n; ++i) {
+                    // same set of aggregated unknowns on both sides (an unknown is left out iff it has no strong neighbour)
+                    if (haveT && Tpart && (t[i] != 0) != (nstrong[i] != 0)) { r.fail(where + "unknown " + std::to_string(i) + " has " + std::to_string(nstrong[i]) + " strong neighbour(s) but is " + (t[i] != 0 ? "" : "not ") + "aggregated by PMIS"); return; }
+                    long double rs = 0; for (auto j = Ps->ptr[i]; j < Ps->ptr[i+1]; ++j) rs += Ps->val[j];
+                    if (std::fabs(rs - rsP[i]) > 1e-11L * std::max(1.0L, std::fabs(rs))) {
+                        std::string m = where + "row " + std::to_string(i) + " (rank " + std::to_string(owner_of(rdom, i)) + ") of the distributed prolongation sums to " + fmt(rsP[i]) + ", the same row of the serial smoothed_aggregation prolongation of the assembled matrix sums to " + fmt(rs);
+                        if (weak_rem[i] >= 0) m += "; the row has a weak connection to unknown " + std::to_string(weak_rem[i]) + " on rank " + std::to_string(owner_of(rdom, weak_rem[i]));
+                        r.fail(m); return;
+                    }
+                }
+            }
+        }
+    }
+    // (3) entry by entry: P == (I - w Df^-1 Af) T
+    if (haveT && Tpart) {
+        long double worst = 0, scale = 1; size_t wi = 0, wc = 0; long double wexp = 0;
+        for (size_t i = 0; i < n; ++i) for (size_t c = 0; c < nc; ++c) {
+            long double e = (1 - omega) * T[i][c];
+            if (nstrong[i]) for (size_t j = 0; j < n; ++j) if (j != i && A[i][j] != 0 && T[j][c] != 0 && strong(i, j)) e += (-omega / dia[i]) * A[i][j] * T[j][c];
+            scale = std::max(scale, std::fabs(e)); long double d = std::fabs(P[i][c] - e); if (d > worst) { worst = d; wi = i; wc = c; wexp = e; }
+        }
+        if (worst > 1e-11L * scale) r.fail(where + "P(" + std::to_string(wi) + "," + std::to_string(wc) + ") = " + fmt(P[wi][wc]) + " but ((I - w Df^-1 Af) P_tent)(" + std::to_string(wi) + "," + std::to_string(wc) + ") = " + fmt(wexp) + " (row owned by rank " + std::to_string(owner_of(rdom, wi)) + ")");
+        r.tag("sa_entrywise");
+    }
+}
+
 // oracles on the recorded hierarchy (rank 0)
 static void check_levels(Result &r, int combo) {
     const bool aggr = (combo == 0 || combo == 2 || combo == 5);
@@ -142,6 +257,7 @@ static void check_levels(Result &r, int combo) {
         for (size_t i = 0; ok && i < nc; ++i) for (size_t j = 0; j < nc; ++j) { long double d = l.Ac[i][j] - s * G[i][j]; if (exactv ? d != 0 : std::fabs(d) > 1e-12L * scale) ok = false; }
         if (!ok) r.fail("level " + std::to_string(k) + ": distributed coarse operator != s*R*A*P" + (exactv ? " (exact)" : ""));
         r.tag(exactv ? "galerkin_exact" : "galerkin_tol");
+        if (!aggr) { SACfg cfg = { l.eps, 1.0, combo == 4 }; check_sa(r, "level " + std::to_string(k) + ": ", l.A, l.P, l.T, l.rdom, cfg); }
         if (aggr) {
             // P_tent is a global partition
             std::vector<int> colcnt(nc, 0); bool part = true, iso = true;
@@ -199,6 +315,28 @@ static Result execute(const Toks &t) {
         for (long i = 0; i < A.n; ++i) { long double s = F[i]; for (auto j = A.ptr[i]; j < A.ptr[i+1]; ++j) s -= (long double)A.val[j].v.get_d() * (long double)X[A.col[j]]; if (std::fabs(s) > 1e-10L * std::max<long double>(1.0L, fm)) ok = false; }
         if (!ok) r.fail("distributed direct solver: A x != f on the gathered system");
         r.out = "solved"; r.nontrivial = x.np > 1; r.tag("mdirect"); r.tag("np" + std::to_string(x.np)); bool e = false; for (long s : P.p) if (!s) e = true; if (e) r.tag("emptyrank");
+    } else if (op == "mtransfer") {
+        long esr = c.nat(), ei = c.nat(); need((esr == 0 || esr == 1) && ei >= 0 && ei < (long)(sizeof(EPS_TAB) / sizeof(EPS_TAB[0])));
+        double relax = exact(c.rat()); need(relax > 0 && relax <= 2);
+        Part P = part(c); Mat A = checked(c); c.expect_end(); need_mat(A, P, P); need(A.n > 0);
+        for (long i = 0; i < A.n; ++i) { bool d = false; for (auto j = A.ptr[i]; j < A.ptr[i+1]; ++j) if (A.col[j] == i && A.val[j] > 0) d = true; need(d); }
+        Ctx x = ctx_for(P.np()); if (!x.active) return r;
+        auto D = make_dm(x, A, P, P);
+        SA::params sp; sp.aggr.eps_strong = EPS_TAB[ei]; sp.relax = relax; sp.estimate_spectral_radius = esr != 0; sp.power_iters = 0;
+        LD T; { auto ap = sp.aggr; amgcl::mpi::coarsening::pmis<BD> ag(*D, ap); bool dy = true; T = gather_dense(*ag.p_tent, dy); }
+        SA C(sp); std::shared_ptr<DM> Pd, Rd; std::tie(Pd, Rd) = C.transfer_operators(*D);
+        bool halved = C.prm.aggr.eps_strong == 0.5 * EPS_TAB[ei];
+        bool dy = true; LD Ad = gather_dense(*D, dy), Pg = gather_dense(*Pd, dy), Rg = gather_dense(*Rd, dy);
+        if (x.rank) return r;
+        std::vector<ptrdiff_t> rdom(P.off.begin(), P.off.end());
+        size_t n = Ad.size(), nc = Pg.size() ? Pg[0].size() : 0;
+        bool rt = Rg.size() == nc && Pg.size() == n; for (size_t i = 0; rt && i < nc; ++i) { if (Rg[i].size() != n) { rt = false; break; } for (size_t j = 0; j < n; ++j) if (Rg[i][j] != Pg[j][i]) rt = false; }
+        if (!rt) r.fail("mtransfer: R != P^T");
+        if (!halved) r.fail("mtransfer: eps_strong is not halved for the next level");
+        SACfg cfg = { EPS_TAB[ei], relax, esr != 0 }; check_sa(r, "mtransfer: ", Ad, Pg, T, rdom, cfg);
+        r.out = (Line() << "transfer" << (long)n << (long)nc).get();
+        r.nontrivial = x.np > 1 && nc >= 1 && has_remote(A, P, P); r.tag("mtransfer"); r.tag("np" + std::to_string(x.np)); if (esr) r.tag("esr");
+        bool e = false; for (long q : P.p) if (!q) e = true; if (e) r.tag("emptyrank");
     } else if (op == "mnonsquare") {
         Part rp = part(c), cp = part(c); c.expect_end(); need(rp.np() == cp.np() && rp.sum != cp.sum);
         Ctx x = ctx_for(rp.np()); if (!x.active) return r;
@@ -234,6 +372,58 @@ static void generate(Rng &rng, const Opts &o, std::vector<std::string> &lines) {
         lines.push_back(l.get());
     }
     for (int np = 1; np <= W; ++np) { long n = rng.range(2, 9); Line l; l << "mnonsquare"; lp(l, rand_part(rng, n, np)); lp(l, rand_part(rng, n + 1 + rng.range(0, 2), np)); lines.push_back(l.get()); }
+    // ---- anisotropic / two-scale families: WEAK connections (a_ij^2 <= eps^2 a_ii a_jj) that cross rank boundaries.
+    // Mostly zero-row-sum rows (one Dirichlet-like shift), so the constant vector is the near-null space.
+    // (appended after the older families so that their op streams stay what they were for a given seed)
+    auto two_scale = [&](int fam, int np, long nmax, std::vector<long> &p) -> Mat {
+        std::vector<Edge> e; long N = 0;
+        static const long WEAKDIV[] = { 8, 16, 32, 64 };
+        Q s = Q::frac(rng.range(1, 4), rng.range(1, 2)), wk = s * Q::frac(1, WEAKDIV[rng.range(0, 3)]);
+        auto jit = [&](const Q &w) { return rng.coin(1, 3) ? w * Q::frac(rng.range(3, 5), 4) : w; };
+        if (fam <= 2) {
+            // 2-D grid, strong along one direction, weak along the other; fam 0: slabs of whole grid lines (every
+            // cross-rank connection is of one kind), fam 1: cuts anywhere (empty ranks included), fam 2: as 1, jittered weights
+            int parts = std::max(np, 2); long nx = rng.range(2, 6), lines_max = std::max<long>(1, nmax / (nx * parts));
+            std::vector<long> nl(parts); long ny = 0; for (auto &q : nl) { q = rng.range(1, std::min<long>(3, lines_max)); ny += q; }
+            bool strong_x = rng.coin(2, 3); N = nx * ny;
+            for (long j = 0; j < ny; ++j) for (long i = 0; i < nx; ++i) { long k = j * nx + i;
+                if (i + 1 < nx) e.push_back({k, k + 1, fam == 2 ? jit(strong_x ? s : wk) : (strong_x ? s : wk)});
+                if (j + 1 < ny) e.push_back({k, k + nx, fam == 2 ? jit(strong_x ? wk : s) : (strong_x ? wk : s)}); }
+            if (fam == 0 && np >= 2) { p.clear(); for (auto q : nl) p.push_back(q * nx); } else p = rand_part(rng, N, np);
+        } else {
+            // random connected graph: a strong spanning forest of a few clusters + weak links between and inside clusters
+            N = rng.range(6, nmax);
+            long ncl = rng.range(1, std::max<long>(1, N / 3)); std::vector<long> cl(N); for (long i = 0; i < N; ++i) cl[i] = i < ncl ? i : rng.range(0, ncl - 1);
+            std::vector<long> last(ncl, -1);
+            for (long i = 0; i < N; ++i) { if (last[cl[i]] >= 0) e.push_back({i, last[cl[i]], jit(s)}); last[cl[i]] = i; }
+            for (long i = 1; i < N; ++i) e.push_back({i, rng.range(0, i - 1), jit(wk)});
+            for (long k = 0; k < N / 2; ++k) { long a = rng.range(0, N - 1), b = rng.range(0, N - 1); if (a != b) e.push_back({a, b, jit(wk)}); }
+            p = rand_part(rng, N, np);
+        }
+        std::vector<Q> shift(N, Q(0)); shift[rng.coin() ? 0 : rng.range(0, N - 1)] = s * Q::frac(rng.range(1, 4), 2);
+        for (long i = 0; i < N; ++i) if (rng.coin(1, 12)) shift[i] = s * Q::frac(rng.range(1, 4), 4);
+        return mmatrix_from_edges(N, e, shift);
+    };
+    static const Q RELAX[] = { Q(1), Q(1), Q::frac(1, 2), Q::frac(3, 4), Q::frac(5, 4) };
+    for (long k = 0; k < (o.thorough() ? 800 : 200); ++k) {
+        int np = (k % 4 == 3) ? (int)rng.range(1, W) : (int)rng.range(2, W); if (np > W) np = W;
+        int fam = (int)(k % 4); std::vector<long> p; Mat A;
+        if (k % 10 == 9) { A = gen_spd(rng, rng.range(6, o.thorough() ? 60 : 30), (int)rng.range(0, 3), 4); p = rand_part(rng, A.n, np); }   // the older families too
+        else A = two_scale(fam, np, o.thorough() ? 72 : 40, p);
+        Line l; l << "mtransfer" << rng.coin(1, 4) << (long)(rng.coin() ? 0 : rng.range(0, 3)) << RELAX[rng.range(0, 4)]; lp(l, p); l << A;
+        lines.push_back(l.get());
+    }
+    // the coupled solver on the same families, smoothed-aggregation combinations (1, 3, 4)
+    for (long k = 0; k < (o.thorough() ? 150 : 42); ++k) {
+        static const int SAC[] = { 1, 3, 4 };
+        int np = (int)rng.range(2, W); if (np > W) np = W;
+        std::vector<long> p; Mat A = two_scale((int)(k % 4), np, o.thorough() ? 60 : 36, p);
+        Line l; l << "msolve" << SAC[k % 3] << rng.coin(); lp(l, p); l << A << gen_vec(rng, A.n, true);
+        lines.push_back(l.get());
+    }
+    lines.push_back("mtransfer 0 9 1 1 2 2 2 2 0 1 1 -1 2 0 -1 1 1");      // eps index out of range
+    lines.push_back("mtransfer 0 0 1/3 1 2 2 2 2 0 1 1 -1 2 0 -1 1 1");    // relax not exact in binary64
+    lines.push_back("mtransfer 0 0 1 1 2 2 2 1 1 -1 2 0 -1 1 1");          // row 0 has no diagonal entry
 }
 
 VH_MPI_MAIN(generate, execute)
